@@ -83,6 +83,25 @@ PROPS = {
         "level_note": _PIPE_NOTE + " from_geo itself (f64, libm) is outside this model: the per-level tile boxes of a geographic bbox are taken from the implementation and handed to the model.",
         "partial": "argument validation (GeoBBox::check, VPLDecode extraction) is tested at spec level, not modelled",
     },
+    "C13": {
+        "cmd": "c13",
+        "theorems": ["C13_gen_positional_read", "C13_read_range", "C13_cached_index_lookup"],
+        "nontrivial": lambda l: True,
+        "rule": "one `sysprog` line: the syscalls of one DataReaderFile::read_range observed under strace (lseek/read/pread64 with a distinctive offset and length) must equal the program the Coq model assigns to read_range (regenerated variant); spec level: 2/8/16 OS threads and 16 tasks on an 8-worker runtime issue 2*10^5 (thorough 4*10^6) random range reads against one reader over a file whose every 8-byte word encodes its own offset - any misplaced read is a violation. distinct_nontrivial counts distinct lines only (the stress reads are reported under input_distribution)",
+        "level_text": "Proved in Coq: with positional reads every caller of read_range gets exactly its own byte range for every number of callers and every interleaving of syscalls on the single shared open file description (induction over the schedule); the pre-fix `dup+lseek+read` program is refuted by a two-caller schedule; index lookups through the mutex-protected LimitedCache return the index of their own key for every history (from C20's provenance theorem). Tie to the code: the syscall program is observed with strace on every run and compared with the model's; the read variant is regenerated from data_reader_file.rs; a multi-threaded stress run searches for misplaced reads.",
+        "level_note": "Trusted: Coq kernel; the abstraction 'one shared offset per open file description, dup shares it, pread does not use it' (POSIX); strace output parsing; harness. Kernel and tokio scheduling cannot be enumerated: the theorem covers all schedules of the syscalls the code is shown to issue. versatiles/pmtiles/tar reader-level concurrent lookups are exercised by the C01/C16 harness runs, their async-mutex critical sections are modelled as atomic.",
+        "partial": "kernel/tokio schedules are not enumerable; the stress run is a search, not a proof; reader-level (versatiles, pmtiles, tar) lookups rely on the atomic-critical-section abstraction",
+        "extended_search": False,
+    },
+    "C14": {
+        "cmd": "c14",
+        "theorems": ["C14_map_perm", "C14_filter_map_perm", "C14_progress", "C14_terminates", "C14_accepts_sound", "C14_buffered"],
+        "nontrivial": lambda l: bool(re.match(r"chunks \d+ \d+ => \d", l)) or (l.startswith("acc ") and (lambda o: o != sorted(o))([int(x) for x in re.findall(r"\d+", l.split(" => ")[0].split(" ", 3)[3])] if len(l.split(" => ")[0].split(" ")) > 3 else [])),
+        "rule": "every completion order of streams of 0..5 items (0..6 thorough) is forced through per-item delays on a 16-worker runtime (map_blob_parallel), plus long streams (up to 1500 / 10^4 items) with adversarial delays through map_blob_parallel, filter_map_blob_parallel and from_coord_iter_parallel, and for_each_buffered with k in {0,1,2,3,7,64,2000}; each observed output order is judged by the extracted Coq `accepts` (permutation + window), chunk sizes are compared with the model's chunker; spec level: every output carries the result of its own coordinate, each retained input exactly once. distinct = distinct lines; non-trivial = an actually reordered output, or a non-empty chunk list",
+        "level_text": "Proved in Coq for every window size n >= 1, every input length and every schedule (every order in which in-flight tasks complete): the unordered-buffer stage emits a permutation of the mapped input (one output per input, each computed from its own input, coordinate inside the task), the filter variants keep exactly the retained results, a non-terminal state can always step and every step decreases a measure (no stuck item, termination), every emitted order passes the executable acceptance test, and for_each_buffered delivers every item once in order in chunks of exactly k (all but the last), k = 0 giving singletons. Tied to the code by forcing all completion orders of small streams and adversarial delays on long ones and judging the observed orders with the extracted acceptance test.",
+        "level_note": "Trusted: Coq kernel; the transition-system abstraction of `stream.map(spawn).buffer_unordered(n)` in coq/Model/Stream.v (futures::buffer_unordered and tokio scheduling are represented by 'start in input order, at most n in flight, any in-flight task may complete'), extraction + driver, harness. The runs validate the abstraction; they cannot enumerate tokio's schedules. Print Assumptions: closed.",
+        "partial": "futures/tokio internals are abstracted by the step relation and validated only by the runs",
+    },
     "C15": {
         "cmd": "c15",
         "theorems": ["C15_gen_index_is_64bit", "C15_gen_border_saturates", "C15_empty", "C15_contains", "C15_intersect",
